@@ -28,6 +28,16 @@ func (ec *evalCtx) failedLval() lval {
 	}
 }
 
+// ghostEpoch: lazily materialised ghost values are named after the epoch of the
+// state; a loop head that may have side effects starts a new epoch, so that a
+// ghost first touched inside the loop is not identified with its entry value.
+func ghostEpoch(st *State) int64 {
+	if t, ok := st.ghost["$epoch"].(*Term); ok && t.IsInt() {
+		return t.Int.Int64()
+	}
+	return 0
+}
+
 func (ec *evalCtx) noteFailure(errNonNil *Term) {
 	lv := ec.failedLval()
 	lv.set(Or(scalar(lv.get()), errNonNil))
@@ -76,7 +86,7 @@ func (ec *evalCtx) outLval(w Value) lval {
 			if v, ok := ec.st.ghost[key]; ok {
 				return v
 			}
-			v := Var("out0:"+writerKey(ec, w), SStr)
+			v := Var(fmt.Sprintf("out%d:%s", ghostEpoch(ec.st), writerKey(ec, w)), SStr)
 			ec.st.ghost[key] = v
 			return v
 		},
@@ -137,7 +147,7 @@ func (ec *evalCtx) traceLval(w Value) lval {
 			if v, ok := ec.st.ghost[key]; ok {
 				return v
 			}
-			nm := "tr0:" + wk
+			nm := fmt.Sprintf("tr%d:%s", ghostEpoch(ec.st), wk)
 			ln := Var(nm+".len", SInt)
 			v := &SliceV{Len: ln, Nil: False, At: func(i *Term) Value {
 				return &StructV{Names: []string{"kind", "a", "b", "n", "h"}, F: map[string]Value{
@@ -156,6 +166,23 @@ func (ec *evalCtx) traceAppend(w Value, ev *StructV) {
 	lv.set(sliceAppend(lv.get().(*SliceV), sliceLit([]Value{ev})))
 }
 
+// inLval: the unread input of a reader (bufio.Reader etc.).
+func (ec *evalCtx) inLval(rd Value) lval {
+	wk := writerKey(ec, rd)
+	key := "in:" + wk
+	return lval{
+		get: func() Value {
+			if v, ok := ec.st.ghost[key]; ok {
+				return v
+			}
+			v := Var(fmt.Sprintf("in%d:%s", ghostEpoch(ec.st), wk), SStr)
+			ec.st.ghost[key] = v
+			return v
+		},
+		set: func(v Value) { ec.st.ghost[key] = v },
+	}
+}
+
 // ghostLvalOf resolves a ghost location expression used in modifies / ensures:
 // out(w), tr(w), failedDuring. ok=false if e is not a ghost location.
 func (ec *evalCtx) ghostLvalOf(e ast.Expr) (lval, bool) {
@@ -171,6 +198,8 @@ func (ec *evalCtx) ghostLvalOf(e ast.Expr) (lval, bool) {
 				return ec.outLval(ec.eval(x.Args[0])), true
 			case "tr":
 				return ec.traceLval(ec.eval(x.Args[0])), true
+			case "in":
+				return ec.inLval(ec.eval(x.Args[0])), true
 			}
 		}
 	}
@@ -426,6 +455,62 @@ func init() {
 		ec.fc.oblige(ec.st, "pool", sc.evalBool(pd.Inv), call.Pos(), "pool invariant of "+v.Name()+" at Put: "+pd.Text)
 		return nil
 	}
+	// bufio.Reader over an input stream: in(r) is the unread input. Chunking of the
+	// underlying reader is hidden behind this contract.
+	stdModels["(*bufio.Reader).ReadString"] = func(ec *evalCtx, call *ast.CallExpr, recv Value, args []Value) Value {
+		lv := ec.inLval(recv)
+		rest := scalar(lv.get())
+		d := scalar(args[0])
+		idx := mk("str.indexof", SInt, rest, FromCode(d), Int(0))
+		found := Ge(idx, Int(0))
+		line := Ite(found, Substr(rest, Int(0), Add(idx, Int(1))), rest)
+		err := Var(ec.e().fresher.name("ReadString.err"), SInt)
+		ec.st.Assume(Eq(Eq(err, Int(0)), found))
+		ec.st.Assume(And(Ge(idx, Int(-1)), Lt(idx, StrLen(rest))))
+		lv.set(Ite(found, Substr(rest, Add(idx, Int(1)), StrLen(rest)), Str("")))
+		ec.noteFailure(Not(Eq(err, Int(0))))
+		ec.e().trusted["std:bufio.Reader.ReadString (returns the shortest prefix of the unread input ending in the delimiter, or the rest with a non-nil error)"] = true
+		return &TupleV{Vs: []Value{line, err}}
+	}
+	stdModels["io.ReadFull"] = func(ec *evalCtx, call *ast.CallExpr, recv Value, args []Value) Value {
+		lv := ec.inLval(args[0])
+		rest := scalar(lv.get())
+		buf := scalar(args[1])
+		n := StrLen(buf)
+		enough := Ge(StrLen(rest), n)
+		err := Var(ec.e().fresher.name("ReadFull.err"), SInt)
+		ec.st.Assume(Eq(Eq(err, Int(0)), enough))
+		got := Var(ec.e().fresher.name("ReadFull.buf"), SStr)
+		ec.st.Assume(Eq(StrLen(got), n))
+		ec.st.Assume(Implies(enough, Eq(got, Substr(rest, Int(0), n))))
+		ec.lvalue(call.Args[1]).set(got)
+		lv.set(Ite(enough, Substr(rest, n, StrLen(rest)), Str("")))
+		ec.noteFailure(Not(Eq(err, Int(0))))
+		ec.e().trusted["std:io.ReadFull (err == nil iff len(buf) bytes were available; then buf holds exactly those bytes and they are consumed)"] = true
+		return &TupleV{Vs: []Value{Ite(enough, n, Var(ec.e().fresher.name("ReadFull.n"), SInt)), err}}
+	}
+	stdModels["strconv.ParseInt"] = func(ec *evalCtx, call *ast.CallExpr, recv Value, args []Value) Value {
+		s, base, bits := scalar(args[0]), scalar(args[1]), scalar(args[2])
+		v := App("strconv.ParseInt.val", SInt, s, base, bits)
+		err := App("strconv.ParseInt.err", SInt, s, base, bits)
+		if bits.IsInt() && bits.Int.Int64() > 0 && bits.Int.Int64() <= 64 {
+			b := int(bits.Int.Int64())
+			ec.st.Assume(And(Le(Sub(Int(0), pow2(b-1)), v), Lt(v, pow2(b-1))))
+		}
+		ec.noteFailure(Not(Eq(err, Int(0))))
+		return &TupleV{Vs: []Value{v, err}}
+	}
+	stdModels["strings.TrimSpace"] = func(ec *evalCtx, call *ast.CallExpr, recv Value, args []Value) Value {
+		return trimSpaceModel(ec, scalar(args[0]))
+	}
+	specModels["strings.TrimSpace"] = func(ec *evalCtx, a []Value) Value { return trimSpaceModel(ec, scalar(a[0])) }
+	stdModels["(context.Context).Err"] = func(ec *evalCtx, call *ast.CallExpr, recv Value, args []Value) Value {
+		iv, ok := recv.(*IfaceV)
+		if !ok {
+			panic(unsupported("ctx.Err on %T", recv))
+		}
+		return App("ctx.Err", SInt, iv.Id)
+	}
 	stdModels["html.EscapeString"] = func(ec *evalCtx, call *ast.CallExpr, recv Value, args []Value) Value {
 		return htmlEscapeModel(ec, scalar(args[0]))
 	}
@@ -496,6 +581,23 @@ func jsonMarshalModel(ec *evalCtx, v Value) (*Term, *Term) {
 	ec.noteFailure(Not(Eq(err, Int(0))))
 	ec.e().trusted["std:encoding/json.Marshal (output in JSON_HTMLSAFE: no '<', '>', '&')"] = true
 	return data, err
+}
+
+// trimSpaceModel: r = TrimSpace(s) with s == a ++ r ++ b, a and b consisting of
+// Go white space, r neither starting nor ending with ASCII white space.
+func trimSpaceModel(ec *evalCtx, s *Term) *Term {
+	if s.IsStr() {
+		return Str(strings.TrimSpace(s.Str))
+	}
+	r := App("strings.TrimSpace", SStr, s)
+	a := App("trim.left", SStr, s)
+	b := App("trim.right", SStr, s)
+	ws := ec.e().langs.GoSpaceStar()
+	ec.st.Assume(Eq(s, Concat(a, r, b)))
+	ec.st.Assume(And(ec.e().inL(a, ws), ec.e().inL(b, ws)))
+	ec.st.Assume(Le(StrLen(r), StrLen(s)))
+	ec.e().trusted["std:strings.TrimSpace (s == a ++ result ++ b with a, b made of Unicode white space)"] = true
+	return r
 }
 
 // htmlEscapeModel: html.EscapeString(s) is in HTML_ESCAPED and decodes back to s.
